@@ -146,6 +146,16 @@ def run(ctx, case):
             from rv.monitors import fileio
             fileio.check_write_file(ctx, "C06", m, kind="text")
             fileio.check_read_file(ctx, "C06", QuaMap, out)
+        if ctx.cur_k is not None and ctx.cur_k % 5 == 2:
+            try:
+                for tl in (m.hits, m.holds, m.svs, m.bpms):
+                    if len(tl):
+                        tl.offset += 7.25
+                if len(m.bpms):
+                    m.bpms.bpm *= 1.5
+                out = m.write()   # the same chart object, edited in place, written again
+            except Exception:
+                ctx.counters["c06|edit_sequence_raised"] += 1
         try:
             m2 = QuaMap.read(out)      # read(write(x)): judged by the read monitor on the written text
             m2.write()                 # write(read(t)): judged by the write monitor
